@@ -16,7 +16,7 @@ def check(rep, tier, seed):
     rep.assumptions = ["instances share no codec object; encoded input streams are shared read-only",
                        "libogg (outside the repository) is itself thread-safe for disjoint objects"]
     rep.coverage["trusted_base"] = ["Coq 8.16.1 kernel (Interleave.v theorem is generic in the step function; instantiated with the encoder/decoder/vorbisfile/bitrate models)",
-                                    "harness/c18.c, pthreads, ThreadSanitizer, ASan malloc fill, clang -ftrivial-auto-var-init",
+                                    "harness/c18.c, pthreads, ThreadSanitizer, ASan malloc fill, clang -ftrivial-auto-var-init, stack painting between library calls (VERIF_STACKPAINT)",
                                     "data races, static storage, uninitialised reads and FPU state are runtime facts no model exhibits: they are explored, not proved"]
     pr = common.prove("C18", clean=(tier == "thorough"))
     rep.proof(pr)
@@ -29,6 +29,11 @@ def check(rep, tier, seed):
         exe = common.build_harness("c18")
         return ("asan fill 0x%02x" % b,) + tuple(run_variant(exe, args, {"ASAN_OPTIONS": common.san_env()["ASAN_OPTIONS"] + ":max_malloc_fill_size=268435456:malloc_fill_byte=%d" % b}))
 
+    def paint(b):
+        # the plain (uninstrumented, nothing auto-initialised) build with the stack painted between library calls
+        exe = common.build_harness("c18", variant="plain")
+        return ("stack paint 0x%02x" % b,) + tuple(run_variant(exe, args, {"VERIF_STACKPAINT": str(b)}))
+
     def plainvar(v):
         exe = common.build_harness("c18", variant=v)
         return (v,) + tuple(run_variant(exe, args))
@@ -38,12 +43,13 @@ def check(rep, tier, seed):
         targs = [args[0], min(njobs, 12 if quick else 36), 4 if quick else 24, 8 if quick else 16, 5000 if quick else 15000]
         return ("tsan",) + tuple(run_variant(exe, targs, {"TSAN_OPTIONS": "halt_on_error=0:exitcode=96:second_deadlock_stack=1"}, timeout=6000))
     # builds first (serial: they share the build cache), then the runs in parallel
-    for v in ("asan", "patinit", "zeroinit", "tsan"):
+    for v in ("asan", "patinit", "zeroinit", "plain", "tsan"):
         common.build_harness("c18", variant=v)
-    tasks = [lambda b=b: asan_fill(b) for b in (0x00, 0xAA, 0xFF, 0x7F)] + [lambda v=v: plainvar(v) for v in ("patinit", "zeroinit")] + [tsan]
+    tasks = [lambda b=b: asan_fill(b) for b in (0x00, 0xAA, 0xFF, 0x7F)] + [lambda v=v: plainvar(v) for v in ("patinit", "zeroinit")] + \
+            [lambda b=b: paint(b) for b in (0x00, 0xFF, 0x7F, 0x41)] + [tsan]
     with cf.ThreadPoolExecutor(len(tasks)) as ex:
         results = list(ex.map(lambda f: f(), tasks))
-    groups = {"asan": [], "init": []}
+    groups = {"asan": [], "init": [], "paint": []}
     total_cmp = 0
     for name, rc, out, err in results:
         lines = out.split("\n")
@@ -71,6 +77,8 @@ def check(rep, tier, seed):
             groups["asan"].append((name, jobs))
         elif name in ("patinit", "zeroinit"):
             groups["init"].append((name, jobs))
+        elif name.startswith("stack paint"):
+            groups["paint"].append((name, jobs))
     for g, runs in groups.items():
         if not runs:
             continue
@@ -92,10 +100,11 @@ def check(rep, tier, seed):
     for k in range(njobs):
         rep.add_case(("job", k, seed), nontrivial=True)
     rep.coverage["evaluations"] = total_cmp + njobs * 6
-    rep.coverage["rule"] = ("%d jobs (encoder 8 configurations incl. managed and 5.1, packet decoder, vorbisfile handle with 16-bit/float reads and every seek kind on chained "
+    rep.coverage["rule"] = ("%d jobs (encoder 11 configurations incl. managed, 5.1 and 64-192 kHz, signals incl. near-silent (-140 dBFS) stretches, packet decoder, vorbisfile handle with 16-bit/float reads and every seek kind on chained "
                             "streams) run solo twice, then in %d rounds of 2..%d threads with random yields (every 4th round: the same jobs in all threads; one extra thread "
                             "runs with FE_UPWARD); every byte/sample/return code hashed and compared with the solo run; the whole program repeated with malloc fill 0x00/0xAA/"
-                            "0xFF/0x7F (ASan) and with clang auto-var-init pattern vs zero (stack + alloca), hashes compared across; ThreadSanitizer build for data races"
+                            "0xFF/0x7F (ASan), with clang auto-var-init pattern vs zero (stack + alloca), and on an uninstrumented build with the stack painted 0x00/0xFF/0x7F/0x41 "
+                            "between library calls, hashes compared across; ThreadSanitizer build for data races"
                             % (njobs, rounds, maxthr))
     rep.coverage["distribution"] = info
     if bad:
